@@ -154,7 +154,7 @@ def main():
             'evidence_file': f'/verif/evidence/{p}.json',
             'replay_cmd_template': './check explain {path}',
             'engine': 'dosa',
-            'level_claimed': {'category': 'other', 'text': c['text'], 'design_ref': 'DESIGN.md section ' + c['ref']},
+            'level_claimed': {'category': 'other', 'text': c['text'] + ' Rules added after the later seeding rounds (the complete, generated inventory with one line per rule is in DESIGN.md 9.4; what each was added for is in 9.3) are necessary conditions of the same kind: each decides a structural clause, none the behaviour.', 'design_ref': 'DESIGN.md section ' + c['ref']},
             'level_note': c['note'],
             'technique': c['technique'],
         })
